@@ -269,12 +269,26 @@ def build_lib(variant="vanilla", verif=True, opt="-O0", extra=()):
 
 
 def cc(src, out, flags=(), cxx=False, libs=(), timeout=300):
-    """compile one harness; returns None or error text"""
+    """compile one harness (serialised per output file, atomic replace, skipped when nothing it
+    depends on changed); returns None or error text"""
     os.makedirs(os.path.dirname(out), exist_ok=True)
     cmd = (["g++", "-std=gnu++11"] if cxx else ["gcc"]) + BASE_CFLAGS + ["-DMYTH_VERIF", "-g"] + list(flags) + \
-          ["-I" + HARNESS, src, "-o", out] + list(libs)
-    rc, o, e = sh(cmd, timeout=timeout)
-    return None if rc == 0 else (o + e)[-3000:]
+          ["-I" + HARNESS, src]
+    deps = [src] + [l for l in libs if os.path.isfile(l)] + repo_sources() + \
+           [os.path.join(HARNESS, f) for f in os.listdir(HARNESS) if f.endswith(".h")]
+    dig = src_digest(deps) + hashlib.sha256(" ".join(cmd + list(libs)).encode()).hexdigest()[:12]
+    with Lock("cc-" + hashlib.sha256(out.encode()).hexdigest()[:12]):
+        stamp = out + ".stamp"
+        if os.path.exists(out) and os.path.exists(stamp) and open(stamp).read() == dig:
+            return None
+        tmp = "%s.tmp%d" % (out, os.getpid())
+        rc, o, e = sh(cmd + ["-o", tmp] + list(libs), timeout=timeout)
+        if rc != 0:
+            return (o + e)[-3000:]
+        os.replace(tmp, out)
+        with open(stamp, "w") as f:
+            f.write(dig)
+    return None
 
 
 # --------------------------------------------------------------------------------------------
